@@ -325,6 +325,29 @@ def main():
             solver_s += q.time_s
             if r == "unsat":
                 n_unsat += 1
+                # reverse direction ("every declared variable is used"): a collected name that the printed text never uses
+                if coll:
+                    q2 = Query("C09_shape_reverse", solver_timeout_s=60, simple=True)
+                    nm2 = Namer(q2, B)
+                    used2, coll2, js2 = build_nodes(sh, X, nm2)
+                    q2.add(z3.Or(*[z3.And(*[c != u for u in used2]) if used2 else z3.BoolVal(True) for c in coll2]))
+                    r2 = q2.check(cross_check=False)
+                    n_q += 1
+                    solver_s += q2.time_s
+                    if r2 == "unsat":
+                        n_unsat += 1
+                    else:
+                        tree = to_json(js2, q2.model(), [0])
+                        u_nat, c_nat, text = run_driver(binary, [tree])[0]
+                        extra = sorted(set(c_nat) - set(u_nat))
+                        if not extra:
+                            infra.append("reverse model %s does not reproduce natively (used %r, collected %r)" % (json.dumps(tree), u_nat, c_nat))
+                        else:
+                            rp = replay(tree, "a variable collected for the declarations is not used by the printed operation", "shape_rev_%d" % n_q)
+                            violations.append(("get_reachable_variables collects $%s for %s but the operation text %r never uses it" % (", $".join(extra), json.dumps(tree), text), rp))
+                            samples.append({"tree": tree, "text": text, "used": u_nat, "collected": c_nat, "direction": "collected-not-used"})
+                            if len(violations) >= 3:
+                                break
                 continue
             tree = to_json(js, q.model(), [0])
             u_nat, c_nat, text = run_driver(binary, [tree])[0]
